@@ -19,12 +19,28 @@ one generator function `KeyedLock.__call__` plus single-threaded asyncio semanti
       fails R1 injects there as well); no suspension point lies between two accesses of
       `_locks` / `_refs` outside the critical section; at the `yield` only the per-key lock is held.
 * R3  per-key exclusion.  Every `yield` is executed while `async with self._locks[key]` is
-      entered (key = the parameter), the lock found for an already registered key is the object
+      entered (key = the parameter; for the manual form `await self._locks[key].acquire()` ...
+      `release()` this is decided by the interpretation: the registered lock is held at the
+      yield and released on every exit), the lock found for an already registered key is the object
       that was registered (never replaced), locks are `asyncio.Lock()`, the cleanup is the
       `finally` of the `try` that contains the acquisition, and the function is an
       `@asynccontextmanager`.
 * R4  nobody outside `KeyedLock` reads or writes `_locks` / `_refs` of a KeyedLock (receiver typed
       by `x = KeyedLock()` field/local assignments; planted positive example in fixtures/c25).
+* R5  every acquisition has an owner.  A lock of the KeyedLock may only be acquired in the waiter's
+      own frame: by `async with <lock>` or by a *directly awaited* `<lock>.acquire()` in `__call__`
+      (or in a coroutine method that `__call__` itself awaits directly).  An acquisition whose
+      completion can outlive the waiter — the `acquire()` coroutine handed to `asyncio.shield`,
+      `create_task`, `ensure_future`, `gather`, a TaskGroup, or created and never awaited — has no
+      frame that releases it: when the waiter is cancelled while queued (shield), or in the step
+      between the inner task finishing and the waiter resuming (task), the detached acquire still
+      takes the lock and nothing ever releases it, so every waiter behind it hangs and the key's
+      entry is never removed.  Decided twice: structurally per acquisition site (the consumer of the
+      `acquire()` coroutine is an `await` / `async with`), and by the interpretation of R1, which
+      models a detached acquisition (cancellation injected at the `await` of the wrapper leaves the
+      lock taken by nobody) and demands that no lock still registered for the key is held by an
+      orphan after exit.  A consumer the rule does not know (e.g. `wait_for`) is an analysis error,
+      not a pass.  Planted positive and negative examples: fixtures/c25/detached_acquire.py.
 
 Not decided: "every waiter eventually enters" — FIFO fairness and cancellation hand-over of
 `asyncio.Lock` are trusted, as is `contextlib.asynccontextmanager`.
@@ -47,8 +63,11 @@ EXPLANATION = (
     "per-key acquisition} the reference count at the yield is initial+1 and the tables after exit equal the initial tables (cleanup complete, "
     "nothing else touched). R2: bookkeeping sections under the main lock contain no suspension point, no suspension point separates two "
     "table accesses outside the critical section, and only the per-key lock is held at the yield. R3: every yield is inside "
-    "`async with self._locks[key]`, an existing key keeps its lock object, locks are asyncio.Lock(), cleanup is the finally of the try holding "
-    "the acquisition. R4: no code outside KeyedLock touches _locks/_refs of a KeyedLock. Not decided: waiter liveness (asyncio.Lock fairness, trusted)."
+    "`async with self._locks[key]` (or, for a directly awaited acquire()/release() pair, the interpretation shows the registered lock held at the yield), an existing key keeps its lock object, locks are asyncio.Lock(), cleanup is the finally of the try holding "
+    "the acquisition. R4: no code outside KeyedLock touches _locks/_refs of a KeyedLock. R5: every lock acquisition is owned by the waiter's frame — "
+    "`async with` or a directly awaited `.acquire()`; an acquire() coroutine handed to asyncio.shield / create_task / ensure_future / gather (or never "
+    "awaited) can complete after the waiter was cancelled and is then released by nobody (waiters behind it hang, the key's state never clears); the "
+    "interpretation models such a detached acquisition and requires that no registered lock is left held by an orphan. Not decided: waiter liveness (asyncio.Lock fairness, trusted)."
 )
 TRUSTED = ["CPython ast", "asyncio.Lock semantics (mutual exclusion, FIFO wake-up, uncontended acquire does not suspend)", "contextlib.asynccontextmanager"]
 LEVEL_NOTE = (
@@ -207,6 +226,66 @@ def run_generator(fn: ast.AST, sim: Sim, args: dict) -> str | None:
     return None
 
 
+# asyncio entry points that run a coroutine in a task of its own: the coroutine's completion is then no longer tied to the
+# frame that awaits the wrapper.  "shield": cancellation of the awaiting frame never reaches the coroutine.  "task":
+# cancellation is forwarded only while the inner task is still pending — once it has finished (the lock is taken) the
+# awaiting frame can still receive the CancelledError before it resumes.
+SPAWNERS = {"shield": "shield", "create_task": "task", "ensure_future": "task", "gather": "task", "start_soon": "task"}
+
+
+class OwnSim(Sim):
+    """`Sim` plus *detached* acquisitions (C25.R5).  ``X.acquire()`` that is not the direct operand of an ``await`` evaluates
+    to a pending-acquire value; a SPAWNER applied to it gives a task value; awaiting the task is one suspension point.
+    Undisturbed, the lock is then held by the frame (as with a direct acquire).  With an exception injected at that
+    point the acquisition still completes — nobody owns it: it is logged in ``orphans`` (lock, kind, text)."""
+
+    def __init__(self, *a, **k):
+        super().__init__(*a, **k)
+        self.orphans: list[tuple] = []
+        self._direct: ast.AST | None = None
+
+    def e_Await(self, e, env):
+        v = e.value
+        if isinstance(v, ast.Call) and isinstance(v.func, ast.Attribute) and v.func.attr == "acquire":
+            self._direct = v
+            return self.eval(v, env)  # the waiter's own frame: one suspension point, counted by _enter
+        val = self.eval(v, env)
+        if isinstance(val, Record) and val._cls == "AcquireCoro":  # `c = lock.acquire(); await c` — still the waiter's own frame
+            self._enter(val.lock)
+            return True
+        text = ast.unparse(v)[:60]
+        self.trace.append(("await", text))
+        if isinstance(val, Record) and val._cls == "AcquireTask":
+            try:
+                self._point(f"await {text}")
+            except Raised:
+                self.orphans.append((val.lock, val.kind, text))
+                raise
+            self.trace.append(("enter", val.lock))
+            self.held.append(val.lock)
+            return True
+        self._point(f"await {text}")
+        return val
+
+    def e_Call(self, e, env):
+        f = e.func
+        if isinstance(f, ast.Attribute) and f.attr == "acquire" and e is not self._direct:
+            try:
+                obj = self.eval(f.value, env)
+            except Unsupported:
+                obj = None
+            if isinstance(obj, Record) and obj._cls in ("Lock", "Semaphore"):
+                return Record("AcquireCoro", lock=obj)
+        name = f.attr if isinstance(f, ast.Attribute) else (f.id if isinstance(f, ast.Name) else None)
+        if name in SPAWNERS and e.args:
+            args = [self.eval(a, env) for a in e.args]
+            inner = next((a for a in args if isinstance(a, Record) and a._cls in ("AcquireCoro", "AcquireTask")), None)
+            if inner is not None:
+                kind = SPAWNERS[name] if inner._cls == "AcquireCoro" or SPAWNERS[name] == "shield" else inner.kind
+                return Record("AcquireTask", lock=inner.lock, kind=kind)
+        return super().e_Call(e, env)
+
+
 # =============================================================================== anchors
 def _bind(repo):
     m, cls = repo.cls(f"{MOD}:{CLS}")
@@ -240,6 +319,92 @@ def _touches_tables(node: ast.AST) -> bool:
     return any(isinstance(x, ast.Attribute) and x.attr in TABLES for x in ast.walk(node))
 
 
+# =============================================================================== acquisition sites (R5)
+class Acq:
+    """One place where a lock is acquired.  ``form``: 'async-with' | 'await' (directly awaited ``.acquire()``) |
+    'detached' (the acquire() coroutine is run by something else / never awaited) | 'unknown' (a consumer the rule does
+    not know).  ``how`` describes the consumer; ``lock`` is the receiver with straight-line locals substituted."""
+
+    def __init__(self, node, lock, form, how, fn):
+        self.node, self.lock, self.form, self.how, self.fn = node, lock, form, how, fn
+        self.perkey = _is_table_subscript(lock, "_locks")
+
+    @property
+    def role(self) -> str:
+        return "per-key" if self.perkey else "bookkeeping"
+
+
+def _callee_name(c: ast.Call) -> str | None:
+    f = c.func
+    return f.attr if isinstance(f, ast.Attribute) else (f.id if isinstance(f, ast.Name) else None)
+
+
+def _consumer(coro: ast.AST, g: ast.AST) -> tuple[str, str]:
+    """(form, how) for the expression ``coro`` that creates a coroutine inside function ``g``: who runs it?"""
+    p = parent(coro)
+    if isinstance(p, ast.Await) and p.value is coro:
+        return "await", "awaited directly"
+    if isinstance(p, ast.Call) and (coro in p.args or any(k.value is coro for k in p.keywords)):
+        name = _callee_name(p)
+        if name in SPAWNERS:
+            txt = call_name(p) or name
+            why = ("cancellation of the waiter never reaches the acquire" if SPAWNERS[name] == "shield"
+                   else "the acquire runs in a task of its own and can finish just before the waiter receives its cancellation")
+            return "detached", f"handed to `{txt}(...)`: {why}"
+        return "unknown", f"passed to `{call_name(p) or name}(...)`"
+    if isinstance(p, ast.Expr):
+        return "detached", "created but never awaited"
+    if isinstance(p, (ast.Assign, ast.AnnAssign)):
+        tg = p.targets if isinstance(p, ast.Assign) else [p.target]
+        if len(tg) == 1 and isinstance(tg[0], ast.Name):
+            loads = [n for n in walk_shallow(g) if isinstance(n, ast.Name) and n.id == tg[0].id and isinstance(n.ctx, ast.Load)]
+            forms = [_consumer(n, g) for n in loads]
+            for want in ("detached", "unknown"):
+                hit = next((f for f in forms if f[0] == want), None)
+                if hit:
+                    return hit[0], f"stored in `{tg[0].id}`, {hit[1]}"
+            if forms:
+                return "await", f"stored in `{tg[0].id}` and awaited directly"
+            return "detached", f"stored in `{tg[0].id}` and never awaited"
+    return "unknown", f"used in `{ast.unparse(p)[:50]}`"
+
+
+def _acq_sites(cls: ast.ClassDef, entry: ast.AST) -> list[Acq]:
+    """Every lock acquisition in the methods of ``cls``: ``async with X`` items and ``X.acquire()`` / ``X.__aenter__()``
+    calls.  A site in a coroutine method other than ``entry`` runs in the frame of whoever runs that method: it counts
+    as the waiter's own only if every use of the method is a directly awaited call."""
+    methods = [n for n in cls.body if isinstance(n, FuncNode)]
+    out: list[Acq] = []
+    for g in methods:
+        mine: list[Acq] = []
+        for n in walk_shallow(g):
+            if isinstance(n, ast.AsyncWith):
+                for it in n.items:
+                    mine.append(Acq(n, expand(it.context_expr, n), "async-with", "async with", g))
+            elif isinstance(n, ast.Attribute) and n.attr in ("acquire", "__aenter__"):
+                c = parent(n)
+                lock = expand(n.value, n)
+                if isinstance(c, ast.Call) and c.func is n:
+                    form, how = _consumer(c, g)
+                    mine.append(Acq(c, lock, form, how, g))
+                else:
+                    mine.append(Acq(n, lock, "unknown", f"bound method `{ast.unparse(n)[:40]}` used as a value", g))
+        if mine and g is not entry:
+            carrier: tuple[str, str] | None = None  # how g itself is run
+            uses = [n for m_ in methods for n in walk_shallow(m_) if isinstance(n, ast.Attribute) and n.attr == g.name and isinstance(n.value, ast.Name)]
+            for u in uses:
+                c = parent(u)
+                f = _consumer(c, enclosing_function(u)) if isinstance(c, ast.Call) and c.func is u else ("unknown", "referenced without a call")
+                if f[0] != "await" and (carrier is None or f[0] == "detached"):
+                    carrier = (f[0], f"`{g.name}()` is {f[1]}")
+            if carrier is not None:
+                for a in mine:
+                    if a.form in ("async-with", "await"):
+                        a.form, a.how = carrier
+        out.extend(mine)
+    return out
+
+
 # =============================================================================== run
 def run(chk) -> None:
     repo = chk.repo
@@ -253,9 +418,12 @@ def run(chk) -> None:
     yields = [n for n in walk_shallow(fn) if isinstance(n, (ast.Yield, ast.YieldFrom))]
     if not yields:
         raise AnchorError(f"`{CLS}.__call__` contains no yield — not a context-manager generator")
-    if not perkey:
-        # nothing acquires a per-key lock: that is a violation of R3, reported below, not an anchor problem
-        pass
+    # every lock acquisition of the class, with the way its acquire() coroutine is consumed (R5); the per-key ones that are
+    # not `async with` are the manual form `await <lock>.acquire()` ... `<lock>.release()` (or a detached acquire)
+    sites = _acq_sites(cls, fn)
+    manual = [a for a in sites if a.fn is fn and a.perkey and a.form != "async-with"]
+    _ownership_of_acquisitions(chk, m, fn, sites)
+    _planted_acquisitions(chk)
 
     # ------------------------------------------------------------------ R2 structural: bookkeeping sections never suspend
     r2_ok = True
@@ -285,8 +453,9 @@ def run(chk) -> None:
 
     susp_nodes = [n for n in cfg.nodes if suspends(n)]
     crit = set()  # nodes of the critical section: the per-key acquisition and the yield — the legitimate suspension
+    manual_calls = {id(a.node) for a in manual}
     for n in cfg.nodes:
-        if n.ast is not None and (id(n.ast) in perkey_hdr or any(isinstance(x, (ast.Yield, ast.YieldFrom)) for x in exprs_in_node(n))):
+        if n.ast is not None and (id(n.ast) in perkey_hdr or any(isinstance(x, (ast.Yield, ast.YieldFrom)) or id(x) in manual_calls for x in exprs_in_node(n))):
             crit.add(n)
     windows = []
     for s in susp_nodes:
@@ -304,23 +473,24 @@ def run(chk) -> None:
            reason=(f"`{ast.unparse(windows[0][1].ast)[:50]}` (line {windows[0][1].line}) suspends between the table access at line {windows[0][0].line} and the one at line {windows[0][2].line}") if windows else "")
 
     # ------------------------------------------------------------------ R3 structural
-    for y in yields:
+    # (with only manual acquisitions "the lock is held at the yield" is decided by the interpretation alone: sim:held-at-yield)
+    for y in (yields if perkey or not manual else []):
         inside = [a for a in _ancestors_until(y, fn) if a in perkey]
         chk.ob("C25.R3", "the yield (caller's critical section) executes inside `async with self._locks[key]`", bool(inside), m=m, node=y, fn=fn,
                instance="yield-under-per-key-lock", reason="yield is not lexically inside the per-key lock acquisition")
     chk.floor("C25.R3", "yield sites", len(yields), 1)
-    for w in perkey:
-        e = expand(w.items[0].context_expr, w)
+    for w, e in [(w, expand(w.items[0].context_expr, w)) for w in perkey] + [(a.node, a.lock) for a in manual]:
         keyed = _is_table_subscript(e, "_locks") and isinstance(e.slice, ast.Name) and e.slice.id == key and not _reassigned(fn, key)
         chk.ob("C25.R3", f"the per-key lock is looked up with the key parameter `{key}` (different keys use different locks)", keyed, m=m, node=w, fn=fn,
                instance="per-key-lookup", reason=f"lock expression `{ast.unparse(e)[:60]}` is not `{selfname}._locks[{key}]` with an unmodified key")
-        tr = next((a for a in _ancestors_until(w, fn) if isinstance(a, ast.Try) and any(x is w or w in list(ast.walk(x)) for x in a.body)), None)
-        has_fin = tr is not None and bool(tr.finalbody) and any(_touches_tables(s) for s in tr.finalbody)
+        has_fin = any(isinstance(a, ast.Try) and any(x is w or w in list(ast.walk(x)) for x in a.body) and any(_touches_tables(s) for s in a.finalbody)
+                      for a in _ancestors_until(w, fn))
         chk.ob("C25.R3", "the per-key acquisition lies in the `try` whose `finally` deregisters (cleanup runs on every exit, incl. cancellation while waiting)", has_fin,
                m=m, node=w, fn=fn, instance="acquire-in-try-finally", reason="no enclosing try with a finally that updates _locks/_refs")
-    chk.floor("C25.R3", "per-key lock acquisitions", len(perkey), 0)
-    if not perkey:
-        chk.ob("C25.R3", "a per-key lock is acquired", False, m=m, node=fn, fn=fn, instance="per-key-lookup", reason="no `async with self._locks[key]` in __call__")
+    chk.floor("C25.R3", "per-key lock acquisitions", len(perkey) + len(manual), 0)
+    if not perkey and not manual:
+        chk.ob("C25.R3", "a per-key lock is acquired", False, m=m, node=fn, fn=fn, instance="per-key-lookup",
+               reason=f"no `async with {selfname}._locks[{key}]` / `await {selfname}._locks[{key}].acquire()` in __call__")
     # lock factory
     factories = []
     for node, kind in attr_writes(cls, "_locks"):
@@ -345,6 +515,68 @@ def run(chk) -> None:
 
     # ------------------------------------------------------------------ R4 ownership
     _ownership(chk, repo)
+
+
+def _ownership_of_acquisitions(chk, m: Module, fn: ast.AST, sites: list[Acq]) -> None:
+    """R5, structural half: the coroutine of every acquisition is run by the waiter's own frame."""
+    unknown = [a for a in sites if a.form == "unknown"]
+    if unknown:
+        a = unknown[0]
+        raise AnchorError(f"C25.R5: the acquire() coroutine of `{ast.unparse(a.lock)[:40]}` (line {a.node.lineno}) is {a.how} — a consumer the rule does not know; "
+                          "it cannot tell whether the acquisition stays owned by the waiter")
+    chk.floor("C25.R5", "lock acquisition sites in KeyedLock (`async with` / `.acquire()`)", len(sites), 1)
+    seen: dict[str, int] = {}
+    for a in sites:
+        phase = "" if a.perkey else (":epilogue" if a.fn is fn and _after_yield(fn, a.node) else ":prologue" if a.fn is fn else f":{a.fn.name}")
+        slot = f"owned-acquire:{a.role}{phase}"
+        seen[slot] = seen.get(slot, 0) + 1
+        if seen[slot] > 1:
+            slot += f"#{seen[slot]}"
+        chk.ob("C25.R5", f"the {a.role} lock is acquired in the waiter's own frame (`async with` or a directly awaited `.acquire()`), so that an acquisition "
+               "never completes without a frame that releases it", a.form in ("async-with", "await"), m=m, node=a.node, fn=a.fn, instance=slot,
+               reason=f"`{ast.unparse(a.lock)[:40]}.acquire()` is {a.how}; when the waiter is cancelled there the acquire still takes the lock and no frame is left "
+                      "to release it — waiters queued behind it never enter and the key's entry is never removed. Acquire with `async with <lock>` / `await <lock>.acquire()` directly")
+
+
+def _planted_acquisitions(chk) -> None:
+    """R5 cannot pass vacuously: on every run the planted keyed locks of fixtures/c25/detached_acquire.py are analysed with the
+    same two procedures; each detached acquisition must be found (structurally, and as an orphaned lock by the interpretation
+    where the class is interpretable = has no helper coroutine), each owned one must be left alone by both."""
+    fx = VERIF / "fixtures" / "c25" / "detached_acquire.py"
+    if not fx.is_file():
+        raise AnchorError(f"C25.R5 fixture {fx} missing")
+    tree = ast.parse(fx.read_text())
+    _set_parents(tree)
+    expect = next((ast.literal_eval(n.value) for n in tree.body if isinstance(n, ast.Assign) and isinstance(n.targets[0], ast.Name) and n.targets[0].id == "EXPECT"), None)
+    if not expect:
+        raise AnchorError("C25.R5 fixture has no EXPECT table")
+    n_struct = n_sim = n_owned = 0
+    for c in tree.body:
+        if not (isinstance(c, ast.ClassDef) and c.name in expect):
+            continue
+        methods = [n for n in c.body if isinstance(n, FuncNode)]
+        fn = next(n for n in methods if n.name == "__call__")
+        selfname, key = [a.arg for a in fn.args.args][:2]
+        pk = [a for a in _acq_sites(c, fn) if a.perkey]
+        det = [a for a in pk if a.form == "detached"]
+        bad: dict[str, str] | None = None
+        if len(methods) == 1:
+            try:
+                _, bad, _ = _interpret(fn, selfname, key, False)
+            except Unsupported as e:
+                raise AnchorError(f"C25.R5 self-check: planted example {c.name} is not interpretable: {e}")
+        if expect[c.name] == "detached":
+            if not det or (bad is not None and "R5|orphan" not in bad):
+                raise AnchorError(f"C25.R5 self-check: the detached acquisition planted in {c.name} is not reported (structural: {[a.form for a in pk]}, interpretation: {sorted(bad or {})})")
+            n_struct += 1
+            n_sim += bad is not None
+        else:
+            if not pk or any(a.form not in ("async-with", "await") for a in pk) or bad:
+                raise AnchorError(f"C25.R5 self-check: the owned acquisition planted in {c.name} is reported (structural: {[(a.form, a.how) for a in pk]}, interpretation: {bad})")
+            n_owned += 1
+    chk.floor("C25.R5", "planted detached acquisitions reported structurally (shield / task / future via local / shielded helper)", n_struct, 4)
+    chk.floor("C25.R5", "planted detached acquisitions for which the interpretation finds a registered lock taken by an orphan", n_sim, 3)
+    chk.floor("C25.R5", "planted owned acquisitions (direct await, via awaited helper, async with) left alone by both procedures", n_owned, 3)
 
 
 def _after_yield(fn: ast.AST, node: ast.AST) -> bool:
@@ -380,7 +612,9 @@ def _mk_state(kind: str):
     return locks, refs, mine, other
 
 
-def _simulate(chk, m: Module, fn: ast.AST, selfname: str, key: str, inject_main: bool) -> None:
+def _interpret(fn: ast.AST, selfname: str, key: str, inject_main: bool) -> tuple[int, dict[str, str], list]:
+    """Interpret ``fn`` on every (initial state, injection point); returns (cases, {"<rule>|<slot>": first failure}, samples).
+    Raises Unsupported for a construct outside the interpreter's model."""
     main_lock = Record("Lock", name="main-lock")
     hooks = {
         f"{selfname}._get_main_lock": lambda: main_lock,
@@ -412,12 +646,9 @@ def _simulate(chk, m: Module, fn: ast.AST, selfname: str, key: str, inject_main:
                 _d["locks"] = dict(_l)
                 _d["held"] = list(sim.held)
 
-            sim = Sim({}, hooks, inject_at=inj, on_yield=on_yield,
+            sim = OwnSim({}, hooks, inject_at=inj, on_yield=on_yield,
                       may_wait=(lambda obj: True) if inject_main else (lambda obj: obj is not main_lock))
-            try:
-                left_by = run_generator(fn, sim, {selfname: me, key: "k"})
-            except Unsupported as e:
-                raise AnchorError(f"C25: `KeyedLock.__call__` uses a construct the interpreter does not model: {e}")
+            left_by = run_generator(fn, sim, {selfname: me, key: "k"})
             cases += 1
             where = f"initial state `{kind}`, " + (f"exception injected at {sim.points[inj]}" if inj is not None and inj < len(sim.points) else "no exception")
             if inj is None:
@@ -462,10 +693,30 @@ def _simulate(chk, m: Module, fn: ast.AST, selfname: str, key: str, inject_main:
                 fail("R1|locks-restored", f"{where}: after exit _locks has keys {sorted(locks)} (initially {sorted(init_locks)}) or a replaced lock object")
             if sim.held:
                 fail("R1|released", f"{where}: locks still held after exit: {[getattr(h, 'name', h) for h in sim.held]}")
+            # detached acquisitions: the waiter has left, the acquire it started completes later; harmful when that lock is the
+            # one (still) registered for the key or another lock of the KeyedLock — later callers queue on it for ever
+            for lk, okind, text in sim.orphans:
+                if lk is main_lock or any(v is lk for v in locks.values()):
+                    fail("R5|orphan", f"{where}: the waiter is gone but the acquisition started by `{text}` is not ({'shielded from the cancellation' if okind == 'shield' else 'its task may already have finished'}): "
+                         f"it takes `{getattr(lk, 'name', lk)}`, which is still {'the main lock' if lk is main_lock else 'registered for the key'}, and nothing releases it — every later waiter of the key hangs and the entry is never removed")
             # next injection point
             inj = 0 if inj is None else inj + 1
             if n_points is None or inj >= n_points:
                 break
+    return cases, bad, samples
+
+
+def _simulate(chk, m: Module, fn: ast.AST, selfname: str, key: str, inject_main: bool) -> None:
+    try:
+        cases, bad, samples = _interpret(fn, selfname, key, inject_main)
+    except Unsupported as e:
+        if any(o.rule == "C25.R5" and not o.ok for o in chk.obligations):
+            # an acquisition that is not owned by the frame is already established structurally; the interpretation could only
+            # add its consequence.  Say that it was not carried out instead of hiding the finding behind an analysis error.
+            chk.observe(f"C25.R1/R2/R3 interpretation not carried out: `KeyedLock.__call__` uses a construct the interpreter does not model ({e}); "
+                        "the structural C25.R5 finding stands on its own")
+            return
+        raise AnchorError(f"C25: `KeyedLock.__call__` uses a construct the interpreter does not model: {e}")
     chk.exhaustive = True
     chk.extra["simulation"] = {"cases": cases, "states": ["absent", "one", "two"], "samples": samples, "main_lock_acquisitions_injected": inject_main}
     chk.floor("C25.R1", "interpreted (state, injection point) cases", cases, 9)
@@ -484,6 +735,8 @@ def _simulate(chk, m: Module, fn: ast.AST, selfname: str, key: str, inject_main:
     ob("R2", "main-held-at-yield", "at the yield only the per-key lock is held (holders of different keys do not block each other)")
     ob("R3", "held-at-yield", "at the yield the lock registered for the key is held")
     ob("R3", "lock-identity", "an already registered key keeps its lock object")
+    ob("R5", "orphan", "no acquisition outlives its waiter: after the context manager was left by an exception at any suspension point, no lock that is still registered "
+       "(or the main lock) is taken by an acquire() that runs detached from the frame (asyncio.shield / task)")
 
 
 # =============================================================================== R4
@@ -579,6 +832,29 @@ TWINS = [
          "            self._locks[key] = asyncio.Lock()\n            if key not in self._refs:\n                self._refs[key] = 0", "C25.R3"),
     Twin("per-key lock admits two holders", _P, "self._locks[key] = asyncio.Lock()", "self._locks[key] = asyncio.Semaphore(2)", "C25.R3"),
     Twin("one lock for all keys", _P, "            async with self._locks[key]:\n                yield", "            async with self._locks[min(self._locks)]:\n                yield", "C25.R3"),
+    # ---- R5 breaking: an acquisition that can outlive its waiter
+    Twin("shielded acquire, release in an inner try/finally (cancelled waiter leaves the acquire queued; it later takes the lock for nobody)", _P,
+         "        try:\n            async with self._locks[key]:\n                yield",
+         "        lock = self._locks[key]\n        try:\n            await asyncio.shield(lock.acquire())\n            try:\n                yield\n            finally:\n                lock.release()", "C25.R5"),
+    Twin("acquire run as a task (task finishes, waiter is cancelled before it resumes: lock taken, never released)", _P,
+         "            async with self._locks[key]:\n                yield",
+         "            await asyncio.create_task(self._locks[key].acquire())\n            try:\n                yield\n            finally:\n                self._locks[key].release()", "C25.R5"),
+    Twin("acquire coroutine stored, wrapped by ensure_future, future awaited", _P,
+         "            async with self._locks[key]:\n                yield",
+         "            pending = self._locks[key].acquire()\n            fut = asyncio.ensure_future(pending)\n            await fut\n            try:\n                yield\n            finally:\n                self._locks[key].release()", "C25.R5"),
+    Twin("shielded acquire of the main lock in the epilogue (a cancelled leaver leaves the main lock taken: every key hangs)", _P,
+         "            async with self._get_main_lock():\n                self._refs[key] -= 1\n                if self._refs[key] == 0:\n                    del self._locks[key]\n                    del self._refs[key]",
+         "            main = self._get_main_lock()\n            await asyncio.shield(main.acquire())\n            try:\n                self._refs[key] -= 1\n                if self._refs[key] == 0:\n                    del self._locks[key]\n                    del self._refs[key]\n            finally:\n                main.release()", "C25.R5"),
+    # ---- R5 benign: the manual form of `async with` — acquired by a direct await in the waiter's own frame, released on every exit after it
+    Twin("benign: direct `await lock.acquire()` with release in an inner try/finally", _P,
+         "        try:\n            async with self._locks[key]:\n                yield",
+         "        lock = self._locks[key]\n        try:\n            await lock.acquire()\n            try:\n                yield\n            finally:\n                lock.release()", None),
+    Twin("benign: direct acquire/release on the table entry, no local", _P,
+         "            async with self._locks[key]:\n                yield",
+         "            await self._locks[key].acquire()\n            try:\n                yield\n            finally:\n                self._locks[key].release()", None),
+    Twin("benign: acquire coroutine in a local, awaited directly", _P,
+         "            async with self._locks[key]:\n                yield",
+         "            pending = self._locks[key].acquire()\n            await pending\n            try:\n                yield\n            finally:\n                self._locks[key].release()", None),
     # ---- benign
     Twin("benign: membership by get()", _P, "if key not in self._locks:", "if self._locks.get(key) is None:", None),
     Twin("benign: explicit increment", _P, "self._refs[key] += 1", "self._refs[key] = self._refs[key] + 1", None),
